@@ -45,7 +45,8 @@ class C06(Hist1Prop):
         if rng.random() < 0.5:
             n = rng.choice([1, 3, 6, 10])
             vals = gen1.values_for(rng, pairs, n, nan_share=0)
-            vals = [round(v * 8) / 8 for v in vals]
+            vals = [round(v * 8) / 8 for v in vals if abs(v) < 1000]   # squares stay exactly representable
+            n = len(vals)
             ws, wk = gen1.weights_for(rng, n, kinds=["none", "int", "dyadic"])
             init = {"op": "construct", "out": 0, "binning": b, "data": gen1.enc_vals(vals),
                     "weights": None if ws is None else [rs(w) for w in ws], "wkind": wk, "keep": rng.random() < 0.8}
@@ -191,7 +192,8 @@ class C06(Hist1Prop):
                         for g in ("mean", "variance"):
                             if st0[g] is not None and st1[g] is not None:
                                 x, y = Fraction(st0[g]), Fraction(st1[g])
-                                if abs(x - y) > Fraction(1, 10**9) * max(abs(x), abs(y), 1):
+                                scale = max(abs(x), abs(y), 1, Fraction(st0["mean"] or 0) ** 2)
+                                if abs(x - y) > Fraction(1, 10**9) * scale:
                                     fails.append(f"stats_{g}: {g} changed from {float(x)} to {float(y)} under positive scaling by {op['c']}")
             if op["op"] == "normalize":
                 tot = Fraction(dst["total"])
